@@ -5,8 +5,11 @@ package main
 import (
 	"fmt"
 	"go/types"
+	"math/big"
 	"sort"
 	"strings"
+
+	"golang.org/x/tools/go/ssa"
 )
 
 type Term struct {
@@ -262,10 +265,14 @@ type Sorts struct {
 	structTypes map[string]*types.Struct
 	tagOf       map[string]int // concrete type string -> iface tag
 	tagNames    []string
+	keySort     map[string]string // heap key -> sort
+	effCache    map[*ssa.Function][]Effect
+	bv          bool // integers are fixed-width bit-vectors
 }
 
-func newSorts() *Sorts {
-	return &Sorts{structSeen: map[string]string{}, structTypes: map[string]*types.Struct{}, tagOf: map[string]int{}}
+func newSorts(bv bool) *Sorts {
+	return &Sorts{structSeen: map[string]string{}, structTypes: map[string]*types.Struct{}, tagOf: map[string]int{},
+		keySort: map[string]string{allocKey: sInt}, effCache: map[*ssa.Function][]Effect{}, bv: bv}
 }
 
 func sanitize(s string) string {
@@ -315,6 +322,9 @@ func (so *Sorts) sortOf(t types.Type) string {
 		case u.Info()&types.IsBoolean != 0:
 			return sBool
 		case u.Info()&types.IsInteger != 0:
+			if so.bv {
+				return bvSort(intWidth(t))
+			}
 			return sInt
 		case u.Kind() == types.Float64 || u.Kind() == types.UntypedFloat:
 			return sF64
@@ -378,6 +388,67 @@ func (so *Sorts) mkStruct(sort string, fields []Term) Term {
 		return Term{"mk_" + sort, sort}
 	}
 	return app(sort, "mk_"+sort, fields...)
+}
+
+func bvSort(w int) string { return fmt.Sprintf("(_ BitVec %d)", w) }
+
+func isBV(s string) bool { return strings.HasPrefix(s, "(_ BitVec") }
+
+func bvWidthOfSort(s string) int {
+	var w int
+	fmt.Sscanf(s, "(_ BitVec %d)", &w)
+	return w
+}
+
+func intWidth(t types.Type) int {
+	b, ok := t.Underlying().(*types.Basic)
+	if !ok {
+		return 64
+	}
+	switch b.Kind() {
+	case types.Int8, types.Uint8:
+		return 8
+	case types.Int16, types.Uint16:
+		return 16
+	case types.Int32, types.Uint32:
+		return 32
+	}
+	return 64
+}
+
+func isSignedInt(t types.Type) bool {
+	if t == nil {
+		return true
+	}
+	b, ok := t.Underlying().(*types.Basic)
+	if !ok {
+		return true
+	}
+	return b.Info()&types.IsUnsigned == 0
+}
+
+// bvLit renders integer n (decimal string, possibly negative) as a w-bit literal.
+func bvLit(n string, w int) Term {
+	x := new(big.Int)
+	x.SetString(n, 10)
+	m := new(big.Int).Lsh(big.NewInt(1), uint(w))
+	x.Mod(x, m)
+	return Term{fmt.Sprintf("(_ bv%s %d)", x.String(), w), bvSort(w)}
+}
+
+// bvToInt: mathematical value of a bit-vector (signed or unsigned reading).
+func bvToInt(v Term, signed bool) Term {
+	w := bvWidthOfSort(v.Sort)
+	n := app(sInt, "bv2nat", v)
+	if !signed {
+		return n
+	}
+	m := new(big.Int).Lsh(big.NewInt(1), uint(w))
+	return ite(app(sBool, "bvslt", v, bvLit("0", w)), sub(n, tIntS(m.String())), n)
+}
+
+func intToBV(v Term, w int) Term {
+	return app(bvSort(w), fmt.Sprintf("(_ int2bv %d)", w), v)
 }
 
 // integer range facts
